@@ -32,6 +32,11 @@ var c09Shapes = []c09Shape{
 	{"strings-map", "s := import(\"strings\")\ns.Map(func(c) { x := 0; for { x++ } }, \"abc\")\n", false, nil},
 	{"host-loop", "f := func(i) { return i + 1 }\ncallmany(f, 40)\nx := 0\nfor { x++ }\n", false, nil},
 	{"host-loop-nested", "g := func(i) { return i + 1 }\nf := func(i) { return call(g, i) }\ncallmany(f, 20)\nx := 0\nfor { x++ }\n", false, nil},
+	{"tail-recursion", "var f\nf = func(n) { return f(n + 1) }\nf(0)\n", false, nil},
+	{"selector-tail-recursion", "o := {}\no.spin = func(self, n) { return self.spin(self, n + 1) }\no.spin(o, 0)\n", false, nil},
+	{"iterator-loop", "a := [1, 2, 3]\nx := 0\nfor { for k, v in a { x += v } }\n", false, nil},
+	{"callrep-second-call-loops", "n := 0\nf := func() { n++; if n < 2 { return n }; x := 0; for { x++ } }\ncallrep(f, 3)\n", false, nil},
+	{"nested-tries-loop", "x := 0\nfor { try { try { x++ } finally { x++ } } catch e { x = 0 } }\n", false, nil},
 	{"finite", "f := func(i) { return i + 1 }\nx := 0\nfor i := 0; i < 6; i++ { x = call(f, x) }\nreturn x\n", true, nil},
 }
 
@@ -154,7 +159,7 @@ func c09VM(rc *sim.RunCtx, shapeIdx int, pooledAll bool, pl *c09Placement) {
 		nAborts = 1 + t.Draw(3)
 	}
 	mm := newModuleMap(nil)
-	bc, err := compile(sim.Prelude+"global callmany\n"+shape.src, mm, false, 0)
+	bc, err := compile(sim.PreludeCall+"global callmany\n"+shape.src, mm, false, 0)
 	if err != nil {
 		rc.Discard = "compile-error"
 		rc.Logf("compile: %v", err)
@@ -406,7 +411,7 @@ func c09Eval(rc *sim.RunCtx) {
 	var err error
 	var follow string
 	mainTh := s.Go("eval", func() {
-		ret, _, err = ev.Run(ctx, []byte(sim.Prelude+"global callmany\n"+shape.src))
+		ret, _, err = ev.Run(ctx, []byte(sim.PreludeCall+"global callmany\n"+shape.src))
 		if s.Killed() {
 			return
 		}
@@ -504,7 +509,7 @@ func init() {
 	sim.Register(&sim.Engine{
 		ID:    "C09",
 		Level: "fault_enumeration",
-		Rule: "scenario VM: a runner thread executes one of 9 fixed script shapes (top-level loop, callee loop, loop on a pooled or non-pooled child VM, child of child, catch-and-retry, strings.Map callback, Go host loop over child VMs, nested host loop, finite control) while aborter threads call Abort(); " +
+		Rule: "scenario VM: a runner thread executes one of 14 fixed script shapes (top-level loop, callee loop, loop on a pooled or non-pooled child VM, child of child, catch-and-retry, strings.Map callback, Go host loop over child VMs, nested host loop, tail recursion through a plain and through a selector call, iterator loop, second invocation on one Invoker handle loops, loop of nested try statements, finite control) while aborter threads call Abort(); " +
 			"enumerated runs place the abort thread after the runner's k-th reported hook event (k<60), let it run j of its own protocol points (j<7), give the runner m∈{1,3,9} events, then finish the abort — every (shape, pooled, k, j, m) once; random runs draw thread choice and quantum at every hook point with 1–2 aborters × 1–3 aborts. " +
 			"scenario Eval: Eval.Run(ctx) with the context cancelled at a drawn point from before compilation to after completion. Oracle: Run/Eval.Run returns within 256 further VM instructions after the last Abort()/cancel() has returned, with ErrVMAborted / a non-nil error for non-terminating scripts; afterwards the same VM/session runs a fixed script to its known outcome. " +
 			"distinct = distinct (shape, placement) for enumerated runs and distinct (shape, context-switch sequence) otherwise; every run has an abort or cancel, so every run is non-trivial.",
